@@ -91,7 +91,7 @@ func genCalldata(r *h.RNG) []byte {
 func genDual(seed uint64, maxFork h.Fork, tweak func(o *h.GenOpts)) DualCase {
 	r := h.NewRNG(seed)
 	f := h.Fork(r.Intn(int(maxFork) + 1))
-	o := h.GenOpts{Precompiles: true, Push0: r.Chance(30), MaxGadgets: 14}
+	o := h.GenOpts{Precompiles: true, Push0: r.Chance(30), MaxGadgets: 14, ReturnData: f >= h.Byzantium}
 	if tweak != nil {
 		tweak(&o)
 	}
